@@ -379,3 +379,75 @@ def run_C01(ctx):
         ASSUME_COMMON + ["payload of the SET_LOG_BASE reply and tail padding of the inflight message are not fixed by the document and not judged",
                          "the hosts supported are little-endian; 'native-endian' is checked as little-endian"],
         viol)
+
+
+# ---------------------------------------------------------------------------------------------
+# C20: validators
+def run_C20(ctx):
+    nrandom = 100000 if ctx.tier == "quick" else 2000000
+    if ctx.replay is not None:
+        cases = [c for c in ctx.replay["cases"] if c]
+        nrandom = 0
+    else:
+        cases = ctx.tlc_mc("MC_Validators", "MC_Validators_" + ctx.tier, workers=1)
+    tr = ctx.harness("valid", cases, extra=("--random", str(nrandom)))
+    def lookup(i):
+        with open(tr) as f:
+            for line in f:
+                if f'"i":{i},' in line:
+                    e = json.loads(line)
+                    return dict(t=e["t"], m=e["m"])
+        return None
+    ctx.case_lookup["valid"] = lookup
+    viol = ctx.tlc_tv("TV_Validators", tr, "valid", chunk_events=20000, par=12)
+    n = 0
+    for line in open(tr):
+        if '"ev":"val"' in line:
+            n += 1
+            if n % 997 == 1 or '"valid":true' in line and n % 13 == 0:
+                e = json.loads(line)
+                ctx.distinct.add((e["t"], json.dumps(e["m"], sort_keys=True)))
+    ctx.evaluations = n
+    ctx.sample(tr, 3, skip=10)
+    ctx.exhaustive = True
+    ctx.notes.append("distinct_nontrivial is a lower bound: a 1/997 systematic sample of evaluated points plus 1/13 of the accepted ones, de-duplicated")
+    return ctx.finish("exploration",
+        "Validators.tla holds one reference predicate per message type (from the rules of the protocol, on 16-bit limbs). TLC enumerates "
+        "the full product of the per-field boundary sets of MC_Validators (0, 1, alignment+-1, limit+-1, 2^31, 2^32-1, 2^63, 2^64-4096+-1, "
+        "2^64-1, every single flag bit, code windows) for the 13 types; the harness builds each struct from raw bytes and records is_valid(); "
+        "TLC re-evaluates the predicate on every record (lattice and seeded random points) and compares. A range ending exactly at 2^64 is "
+        "left open ('any').",
+        ASSUME_COMMON + ["the lattice is exhaustive for the bounded sets in MC_Validators.tla, not for all 2^64 values; random points add coverage in between"],
+        viol)
+
+
+# ---------------------------------------------------------------------------------------------
+# C05: hostile input to the backend request server (+ daemon part, see daemon_hostile_run)
+def hostile_server_run(ctx):
+    cases = ctx.tlc_mc("MC_Hostile", "MC_Hostile_" + ctx.tier, workers=1)
+    reps = 3 if ctx.tier == "quick" else 12
+    allc = []
+    for r in range(reps):
+        for c in cases:
+            allc.append(dict(dev=c["dev"], steps=c["steps"], adapter="direct" if r % 3 == 2 else "mutex"))
+    allc = replay_or(ctx, "server", allc)
+    tr = ctx.harness("server", allc, shards=12)
+    viol = ctx.tlc_tv("TV_BackendServer", tr, "server")
+    ctx.count_distinct(tr, lambda e: (e["c"], e["var"], e["nfds"], e["res"], e["ncalls"]), lambda e: e["var"] != "valid")
+    ctx.sample(tr, 3, skip=7)
+    return viol
+
+
+def run_C05(ctx):
+    viol = hostile_server_run(ctx)
+    return ctx.finish("exploration",
+        "MC_Hostile enumerates, per request code (0..46, 1000) from a fresh and from a fully negotiated connection: the valid message, 10 header "
+        "mutations (REPLY, version 0/2/3, reserved bit, size short/long/zero/4096/>4096), every single violated body rule, and 0..40 attached "
+        "descriptors (8 classes quick) x NEED_REPLY x handler outcome; each letter is instantiated with several seeds (boundary + random 64-bit "
+        "values) and written by a raw peer to the real BackendReqHandler built with overflow checks and debug assertions; TLC evaluates on "
+        "the recorded handler calls the reference validity predicates (Validators.tla), the prescribed descriptor count and rejection of "
+        "the listed rule violations; distinct = (code, variant, descriptors, result, dispatched)",
+        ASSUME_COMMON + ["reads outside the received message that do not end in a panic/abort are invisible to this technique (not claimed)",
+                         "header-level oddities (REPLY flag, wrong fixed size) on requests the statement's rule list does not mention are judged only for panics, "
+                         "invalid handler arguments and descriptor counts"],
+        viol)
